@@ -45,6 +45,7 @@ import (
 	"github.com/libp2p/go-libp2p/p2p/transport/websocket"
 	libp2pwebtransport "github.com/libp2p/go-libp2p/p2p/transport/webtransport"
 	ma "github.com/multiformats/go-multiaddr"
+	madns "github.com/multiformats/go-multiaddr-dns"
 	manet "github.com/multiformats/go-multiaddr/net"
 	"github.com/quic-go/quic-go"
 )
@@ -1044,4 +1045,473 @@ func e2eCircuitForms(t *testing.T, out *verifh.Out) {
 			}
 		}
 	}
+}
+
+// ---- addresses known by name: the real swarm dial path with a scripted resolver ----------
+//
+// G knows R by IP and by /dns4 | /dns6 | /dns WebSocket addresses.  The swarm's
+// multiaddr resolver (the real madns.Resolver behind swarm.ResolverFromMaDNS) is given a
+// scripted lookup that fails or answers per name.  The transport is the real WebSocket
+// transport (its CanDial / Protocols / Resolve are what the swarm's resolver chain uses)
+// with a recording Dial: handed an IP address it opens the connection to that IP; handed a
+// name it looks the name up itself in a second table (websocket.maDial does that through
+// net.ResolveTCPAddr, i.e. the operating system's resolver) and opens the connection to
+// what it finds.  Nothing is actually connected.  Wire format: resolver case in Spec.v.
+
+type resRec struct {
+	mu  sync.Mutex
+	evs [][]int64
+}
+
+func (r *resRec) add(code int64, ip net.IP, allow bool) {
+	e := []int64{code, 0, 0, 0, 0, 0, 0, b2i(allow)}
+	if ip != nil {
+		e[1] = 1
+		copy(e[2:7], encIP(ip))
+	}
+	r.mu.Lock()
+	r.evs = append(r.evs, e)
+	r.mu.Unlock()
+}
+
+type resGater struct {
+	inner connmgr.ConnectionGater
+	rec   *resRec
+}
+
+func (g *resGater) InterceptPeerDial(p peer.ID) bool {
+	allow := g.inner.InterceptPeerDial(p)
+	g.rec.add(1, nil, allow)
+	return allow
+}
+func (g *resGater) InterceptAddrDial(p peer.ID, a ma.Multiaddr) bool {
+	allow := g.inner.InterceptAddrDial(p, a)
+	if ip, err := manet.ToIP(a); err == nil {
+		g.rec.add(2, ip, allow)
+	} else {
+		g.rec.add(2, nil, allow)
+	}
+	return allow
+}
+func (g *resGater) InterceptAccept(c network.ConnMultiaddrs) bool { return g.inner.InterceptAccept(c) }
+func (g *resGater) InterceptSecured(d network.Direction, p peer.ID, c network.ConnMultiaddrs) bool {
+	return g.inner.InterceptSecured(d, p, c)
+}
+func (g *resGater) InterceptUpgraded(c network.Conn) (bool, control.DisconnectReason) {
+	return g.inner.InterceptUpgraded(c)
+}
+
+var errResRefused = fmt.Errorf("c10: connection refused (recording transport)")
+
+type resTpt struct {
+	*websocket.WebsocketTransport
+	rec    *resRec
+	lookup map[string]net.IP // the transport's own name lookup
+}
+
+func (t *resTpt) Dial(_ context.Context, raddr ma.Multiaddr, _ peer.ID) (transport.CapableConn, error) {
+	if ip, err := manet.ToIP(raddr); err == nil {
+		t.rec.add(3, ip, true)
+		t.rec.add(8, ip, true) // DialTCP to that address
+		return nil, errResRefused
+	}
+	t.rec.add(3, nil, true)
+	first, _ := ma.SplitFirst(raddr)
+	if first != nil {
+		switch first.Protocol().Code {
+		case ma.P_DNS, ma.P_DNS4, ma.P_DNS6:
+			if ip, ok := t.lookup[first.Value()]; ok {
+				t.rec.add(8, ip, true)
+			}
+		}
+	}
+	return nil, errResRefused
+}
+
+type resDNS struct {
+	fail map[string]bool
+	ans  map[string][]net.IP
+}
+
+func (d *resDNS) LookupIPAddr(_ context.Context, name string) ([]net.IPAddr, error) {
+	if d.fail[name] {
+		return nil, fmt.Errorf("c10: SERVFAIL %s", name)
+	}
+	var out []net.IPAddr
+	for _, ip := range d.ans[name] {
+		out = append(out, net.IPAddr{IP: append(net.IP{}, ip...)})
+	}
+	return out, nil
+}
+func (d *resDNS) LookupTXT(_ context.Context, name string) ([]string, error) {
+	return nil, fmt.Errorf("c10: no TXT records for %s", name)
+}
+
+// one address G knows R by
+type resAddr struct {
+	name bool
+	ip   net.IP   // !name: the address
+	dnsk int      // name: 0 /dns, 4 /dns4, 6 /dns6
+	tls  bool     // /tls/ws instead of /ws
+	fail bool     // name: the swarm's lookup fails
+	ans  []net.IP // name: what the swarm's lookup answers (already restricted to the family of dnsk)
+	tip  net.IP   // name: what the transport's own lookup answers (nil: nothing)
+}
+
+func (a resAddr) enc() []int64 {
+	if !a.name {
+		return append(append([]int64{0}, encIP(a.ip)...), b2i(a.tls))
+	}
+	r := []int64{1, b2i(!a.fail), 0}
+	if !a.fail {
+		r[2] = int64(len(a.ans))
+		for _, ip := range a.ans {
+			r = append(r, encIP(ip)...)
+		}
+	}
+	r = append(r, int64(a.dnsk), b2i(a.tls))
+	if a.tip == nil {
+		return append(r, 0, 0, 0, 0, 0, 0)
+	}
+	return append(append(r, 1), encIP(a.tip)...)
+}
+
+func resIPComp(ip net.IP) string {
+	if len(ip) == 4 {
+		return "/ip4/" + ip.String()
+	}
+	if v4 := ip.To4(); v4 != nil {
+		return "/ip6/::ffff:" + v4.String()
+	}
+	return "/ip6/" + ip.String()
+}
+
+func resRun(t *testing.T, out *verifh.Out, form int, calls []e2eCall, addrs []resAddr, keySeed byte) {
+	rec := &resRec{}
+	ds := e2eNewDS()
+	real, err := conngater.NewBasicConnectionGater(ds)
+	if err != nil {
+		t.Fatal(err)
+	}
+	// the rule calls go to the real gater (reopened on its datastore where the history says
+	// so); the swarm is given the gater that is current after the last call
+	dg := &e2eGater{inner: real, rec: &e2eRec{}}
+	target, _ := peer.IDFromPrivateKey(e2eKey(keySeed + 101))
+	other, _ := peer.IDFromPrivateKey(e2eKey(keySeed + 53))
+	e2eApplyCalls(t, ds, dg, real, calls, target, other)
+	g := &resGater{inner: dg.cur(), rec: rec}
+
+	dns := &resDNS{fail: map[string]bool{}, ans: map[string][]net.IP{}}
+	lookup := map[string]net.IP{}
+	var maddrs []ma.Multiaddr
+	for i, a := range addrs {
+		tail := fmt.Sprintf("/tcp/%d/ws", 4000+i)
+		if a.tls {
+			tail = fmt.Sprintf("/tcp/%d/tls/ws", 4000+i)
+		}
+		var s string
+		if !a.name {
+			s = resIPComp(a.ip) + tail
+		} else {
+			name := fmt.Sprintf("n%d.c10.example", i)
+			dns.fail[name] = a.fail
+			dns.ans[name] = a.ans
+			if a.tip != nil {
+				lookup[name] = a.tip
+			}
+			s = map[int]string{0: "/dns/", 4: "/dns4/", 6: "/dns6/"}[a.dnsk] + name + tail
+		}
+		m, err := ma.NewMultiaddr(s)
+		if err != nil {
+			t.Fatalf("c10 resolver case: %s: %v", s, err)
+		}
+		maddrs = append(maddrs, m)
+	}
+
+	priv := e2eKey(keySeed)
+	id, _ := peer.IDFromPrivateKey(priv)
+	ps, err := pstoremem.NewPeerstore()
+	if err != nil {
+		t.Fatal(err)
+	}
+	ps.AddPrivKey(id, priv)
+	ps.AddPubKey(id, priv.GetPublic())
+	rslv, err := madns.NewResolver(madns.WithDefaultResolver(dns))
+	if err != nil {
+		t.Fatal(err)
+	}
+	s, err := swarm.NewSwarm(id, ps, eventbus.NewBus(), swarm.WithConnectionGater(g),
+		swarm.WithDialRanker(swarm.NoDelayDialRanker),
+		swarm.WithMultiaddrResolver(swarm.ResolverFromMaDNS{Resolver: rslv}))
+	if err != nil {
+		t.Fatal(err)
+	}
+	defer s.Close()
+	st := insecure.NewWithIdentity(insecure.ID, id, priv)
+	upg, err := tptu.New([]sec.SecureTransport{st}, []tptu.StreamMuxer{{ID: yamux.ID, Muxer: yamux.DefaultTransport}}, nil, nil, g)
+	if err != nil {
+		t.Fatal(err)
+	}
+	ws, err := websocket.New(upg, nil, nil)
+	if err != nil {
+		t.Fatal(err)
+	}
+	if err := s.AddTransport(&resTpt{WebsocketTransport: ws, rec: rec, lookup: lookup}); err != nil {
+		t.Fatal(err)
+	}
+	s.Peerstore().AddAddrs(target, maddrs, peerstore.PermanentAddrTTL)
+	ctx, cancel := context.WithTimeout(context.Background(), 20*time.Second)
+	_, _ = s.DialPeer(ctx, target)
+	cancel()
+
+	rec.mu.Lock()
+	evs := append([][]int64{}, rec.evs...)
+	rec.mu.Unlock()
+	line := []int64{2, int64(form), int64(len(calls))}
+	for _, c := range calls {
+		line = append(line, c.enc()...)
+	}
+	line = append(line, 1, int64(len(addrs)))
+	for _, a := range addrs {
+		line = append(line, a.enc()...)
+	}
+	line = append(line, int64(len(evs)))
+	named, conn := false, false
+	for _, e := range evs {
+		line = append(line, e...)
+		switch e[0] {
+		case 2:
+			if e[7] == 0 {
+				out.Cover("resolver.addr-refused-by-gater")
+			}
+		case 3:
+			if e[1] == 0 {
+				named = true
+			}
+		case 8:
+			conn = true
+		}
+	}
+	out.Cover("resolver.cases")
+	if named {
+		out.Cover("resolver.name-handed-to-transport")
+	}
+	if conn {
+		out.Cover("resolver.transport-connection-attempt")
+	} else {
+		out.Cover("resolver.no-transport-connection-attempt")
+	}
+	for _, a := range addrs {
+		switch {
+		case !a.name:
+			out.Cover("resolver.addr.ip")
+		case a.fail:
+			out.Cover(fmt.Sprintf("resolver.addr.dns%d.lookup-fails", a.dnsk))
+		default:
+			out.Cover(fmt.Sprintf("resolver.addr.dns%d.answers%d", a.dnsk, len(a.ans)))
+		}
+	}
+	out.Case(line)
+}
+
+var resPool4 = []net.IP{{127, 0, 0, 1}, {127, 0, 0, 2}, {10, 1, 2, 3}, {10, 1, 2, 77}, {192, 0, 2, 9}, {198, 51, 100, 1}}
+var resPool6 = []net.IP{net.ParseIP("::1"), net.ParseIP("2001:db8::1"), net.ParseIP("2001:db8::2"), net.ParseIP("2001:db8:1::5")}
+
+func resPick(r *verifh.Rand, dnsk int) net.IP {
+	switch {
+	case dnsk == 4 || (dnsk == 0 && r.Chance(2, 3)):
+		return append(net.IP{}, resPool4[r.Intn(len(resPool4))]...)
+	default:
+		return append(net.IP{}, resPool6[r.Intn(len(resPool6))]...)
+	}
+}
+
+// rules aimed at one address: by address (either byte form), by a subnet around it, lifted
+// again, restarted, or rules that do not match it
+func resRulesFor(r *verifh.Rand, ip net.IP) []e2eCall {
+	var wide *net.IPNet
+	forms := []net.IP{ip}
+	if v4 := ip.To4(); v4 != nil {
+		bits := []int{8, 24, 32, 0}[r.Intn(4)]
+		wide = &net.IPNet{IP: v4.Mask(net.CIDRMask(bits, 32)), Mask: net.CIDRMask(bits, 32)}
+		forms = []net.IP{append(net.IP{}, v4...), mapped(v4)}
+	} else {
+		bits := []int{32, 64, 128, 0}[r.Intn(4)]
+		wide = &net.IPNet{IP: ip.Mask(net.CIDRMask(bits, 128)), Mask: net.CIDRMask(bits, 128)}
+	}
+	f := forms[r.Intn(len(forms))]
+	var calls []e2eCall
+	switch r.Intn(8) {
+	case 0, 1, 2:
+		calls = []e2eCall{{kind: 1, ip: f}}
+	case 3, 4:
+		calls = []e2eCall{{kind: 2, n: wide}}
+	case 5:
+		calls = []e2eCall{{kind: 1, ip: f}, {kind: 1, opk: 1, ip: forms[r.Intn(len(forms))]}}
+	case 6:
+		calls = []e2eCall{{kind: 2, n: wide}, {kind: 0, p: 2}}
+	default:
+		calls = []e2eCall{{kind: 2, n: cidr("203.0.113.0/24")}, {kind: 1, ip: net.ParseIP("2001:db8:ffff::1")}}
+	}
+	if r.Chance(1, 8) {
+		calls = append(calls, e2eCall{kind: 0, p: 1})
+	}
+	if len(calls) > 0 && r.Chance(1, 3) {
+		k := 1 + r.Intn(len(calls))
+		calls = append(calls[:k:k], append([]e2eCall{{ev: 4}}, calls[k:]...)...)
+	}
+	return calls
+}
+
+func resRandAddr(r *verifh.Rand) resAddr {
+	if r.Chance(1, 4) {
+		return resAddr{ip: resPick(r, 0), tls: r.Chance(1, 3)}
+	}
+	a := resAddr{name: true, dnsk: []int{4, 4, 6, 0}[r.Intn(4)], tls: r.Chance(1, 3)}
+	a.tip = resPick(r, a.dnsk)
+	if r.Chance(2, 5) {
+		a.fail = true
+		return a
+	}
+	n := r.Intn(4)
+	for i := 0; i < n; i++ {
+		a.ans = append(a.ans, resPick(r, a.dnsk))
+	}
+	if n > 0 && r.Chance(2, 3) {
+		// the transport's own lookup usually agrees with the swarm's
+		a.tip = append(net.IP{}, a.ans[0]...)
+	}
+	return a
+}
+
+func TestVerifC10Res(t *testing.T) {
+	out, err := verifh.Open()
+	if err != nil {
+		t.Fatal(err)
+	}
+	defer out.Close()
+	r := verifh.NewRand(verifh.Seed() + 1414)
+	n := 160
+	if verifh.Tier() == "thorough" {
+		n = 2400
+	}
+	seed := byte(0)
+	// directed: exactly one address; the rules are aimed at the IP behind it
+	for _, dnsk := range []int{4, 6, 0} {
+		for _, tls := range []bool{false, true} {
+			for _, fail := range []bool{false, true} {
+				for k := 0; k < 3; k++ {
+					ip := resPick(r, dnsk)
+					a := resAddr{name: true, dnsk: dnsk, tls: tls, fail: fail, tip: ip}
+					if !fail {
+						a.ans = []net.IP{ip}
+						if k == 2 {
+							a.ans = append(a.ans, resPick(r, dnsk))
+						}
+					}
+					seed++
+					resRun(t, out, 1, resRulesFor(r, ip), []resAddr{a}, seed)
+				}
+			}
+		}
+	}
+	// random: several addresses, rules aimed at one of the IPs involved
+	for i := 0; i < n; i++ {
+		na := 1 + r.Intn(4)
+		var addrs []resAddr
+		var ips []net.IP
+		for j := 0; j < na; j++ {
+			a := resRandAddr(r)
+			addrs = append(addrs, a)
+			if !a.name {
+				ips = append(ips, a.ip)
+			} else {
+				ips = append(ips, a.ans...)
+				if a.tip != nil {
+					ips = append(ips, a.tip)
+				}
+			}
+		}
+		calls := resRulesFor(r, ips[r.Intn(len(ips))])
+		if r.Chance(1, 3) {
+			calls = append(calls, resRulesFor(r, ips[r.Intn(len(ips))])...)
+		}
+		seed++
+		resRun(t, out, 2, calls, addrs, seed)
+	}
+}
+
+// TestVerifC10ResReplay re-runs one recorded resolver case (VERIF_REPLAY_CASE)
+func TestVerifC10ResReplay(t *testing.T) {
+	out, err := verifh.Open()
+	if err != nil {
+		t.Fatal(err)
+	}
+	defer out.Close()
+	in := verifh.ReplayCase()
+	if len(in) < 6 || in[0] != 2 {
+		t.Skip("not a resolver case")
+	}
+	decIP := func(f []int64) net.IP {
+		if f[0] == 4 {
+			ip := make(net.IP, 4)
+			binary.BigEndian.PutUint32(ip, uint32(f[4]))
+			return ip
+		}
+		ip := make(net.IP, 16)
+		for i := 0; i < 4; i++ {
+			binary.BigEndian.PutUint32(ip[4*i:], uint32(f[1+i]))
+		}
+		return ip
+	}
+	form, nc := int(in[1]), int(in[2])
+	pos := 3
+	var calls []e2eCall
+	for i := 0; i < nc; i++ {
+		f := in[pos : pos+10]
+		pos += 10
+		if f[0] == 4 {
+			calls = append(calls, e2eCall{ev: 4})
+			continue
+		}
+		c := e2eCall{opk: int(f[1]), kind: int(f[2])}
+		switch f[2] {
+		case 0:
+			c.p = int(f[3])
+		case 1:
+			c.ip = decIP(f[3:8])
+		default:
+			bits := 32
+			if f[8] != 0 {
+				bits = 128
+			}
+			c.n = &net.IPNet{IP: decIP(f[3:8]), Mask: net.CIDRMask(int(f[9]), bits)}
+		}
+		calls = append(calls, c)
+	}
+	pos++ // peer
+	nk := int(in[pos])
+	pos++
+	var addrs []resAddr
+	for i := 0; i < nk; i++ {
+		if in[pos] == 0 {
+			addrs = append(addrs, resAddr{ip: decIP(in[pos+1 : pos+6]), tls: in[pos+6] != 0})
+			pos += 7
+			continue
+		}
+		a := resAddr{name: true, fail: in[pos+1] == 0}
+		n := int(in[pos+2])
+		pos += 3
+		for j := 0; j < n; j++ {
+			a.ans = append(a.ans, decIP(in[pos:pos+5]))
+			pos += 5
+		}
+		a.dnsk, a.tls = int(in[pos]), in[pos+1] != 0
+		if in[pos+2] != 0 {
+			a.tip = decIP(in[pos+3 : pos+8])
+		}
+		pos += 8
+		addrs = append(addrs, a)
+	}
+	resRun(t, out, form, calls, addrs, 200)
 }
